@@ -120,6 +120,9 @@ def load_prop(pid):
     return mod
 
 
+SHARD_MAX = 2000
+
+
 def shard_seed(seed, shard):
     return (seed * 1000003 + shard * 7919 + 17) % (2 ** 63)
 
@@ -154,24 +157,32 @@ def safe_run_case(mod, case, agg, shard=None):
     return res
 
 
+class _Capped(Exception):
+    """Raised inside a Hypothesis run to end it at once when the wall-clock cap is reached (a cap hit = inconclusive)."""
+
+
 def shard_worker(args):
-    pid, tier, seed, shard, n, cap = args
+    pid, tier, seed, shard, n, deadline = args
     mod = load_prop(pid)
     agg = Agg()
-    t0 = time.monotonic()
     state = {'capped': False}
+    if time.monotonic() > deadline:
+        agg.extra['shards_capped'] = 1
+        return agg
     if hasattr(mod, 'worker_init'):
         mod.worker_init(tier, shard)
 
     def body(case):
-        if time.monotonic() - t0 > cap:
+        if time.monotonic() > deadline:
             state['capped'] = True
-            return
+            raise _Capped()
         if len(agg.harness) > 20:
             return
         safe_run_case(mod, case, agg, shard)
     try:
         _hyp_run(mod, tier, seed, shard, n, body)
+    except _Capped:
+        pass
     except Exception as e:
         agg.harness.append({'case': None, 'tb': ''.join(
             traceback.format_exception(type(e), e, e.__traceback__))[-3000:]})
@@ -357,11 +368,18 @@ def main(argv=None):
     cap = float(os.environ.get('VERIF_CAP_S', getattr(mod, 'CAP_S', {'quick': 240, 'thorough': 3000})[tier]))
     nshards = min(NWORKERS, getattr(mod, 'MAX_SHARDS', NWORKERS), max(1, budget))
     per = max(1, budget // nshards)
-    jobs = [(pid, tier, seed, s, per, cap) for s in range(nshards)]
+    # big budgets are cut into more (virtual) shards than worker processes, each a seeded Hypothesis run of at most SHARD_MAX
+    # cases: a shard that starts after the wall-clock cap is skipped, one that is running stops at its next case
+    njobs = nshards
+    if per > SHARD_MAX:
+        njobs = -(-budget // SHARD_MAX)
+        per = -(-budget // njobs)
+    deadline = time.monotonic() + cap
+    jobs = [(pid, tier, seed, s, per, deadline) for s in range(njobs)]
     if budget > 0:
         ctx = multiprocessing.get_context('fork')
         with ctx.Pool(nshards) as pool:
-            results = pool.map(shard_worker, jobs, chunksize=1)
+            results = list(pool.imap_unordered(shard_worker, jobs, chunksize=1))
         for r in results:
             for f in r.fails.values():
                 f['n'] = per
@@ -376,7 +394,8 @@ def main(argv=None):
             total.harness.append({'case': None, 'tb': ''.join(
                 traceback.format_exception(type(e), e, e.__traceback__))[-3000:]})
     notes['budget_cases'] = budget
-    notes['shards'] = nshards
+    notes['shards'] = njobs
+    notes['worker_processes'] = nshards
     if total.extra.get('shards_capped'):
         notes['inconclusive_wall_cap_hit'] = True
 
